@@ -273,6 +273,22 @@ def run(chk: Check, ctx: Any) -> None:
     else:
         chk.unknown("C03-R3", "macro_call:shared-counter", mc, "macro.build(...) call not found")
 
+    # every op built by a macro expansion owns its parameter list (the jump target is appended to it later)
+    pp = repo.func("explorerscript.macro:ExplorerScriptMacro._process_parameters")
+    pparams = set(astq.params_of(pp.node))
+    rets = [n for n in walk_no_nested(pp.node) if isinstance(n, ast.Return) and n.value is not None]
+    aliased = [r for r in rets if isinstance(r.value, ast.Name) and r.value.id in pparams]
+    fresh = [r for r in rets if isinstance(r.value, (ast.List, ast.ListComp)) or (isinstance(r.value, ast.Call) and dotted(r.value.func) in ("list", "copy.copy")) or (
+        isinstance(r.value, ast.Name) and any(isinstance(a, (ast.Assign, ast.AnnAssign)) and norm(a.targets[0] if isinstance(a, ast.Assign) else a.target) == r.value.id
+                                              and isinstance(a.value, (ast.List, ast.ListComp)) for a in walk_no_nested(pp.node)))]
+    if aliased:
+        chk.violation("C03-R2", "macro:_process_parameters:fresh-list", pp,
+                      f"`{norm(aliased[0])}` hands the blueprint's own parameter list to the built op: all expansions of the macro share one list per op, and the "
+                      "jump target that OpsLabelJumpToRemover appends is added once per expansion (Jump [6, 12, 17] ...)", node=aliased[0])
+    else:
+        chk.decide("C03-R2", "macro:_process_parameters:fresh-list", (len(fresh) == len(rets) and bool(rets)) or None, pp,
+                   "returned parameter list not recognised as a new list", "a new list per built op")
+
     # ------------------------------------------------------------------ R4 finalizer / listener
     fin = repo.func(FINALIZER)
     ffn = fin.node
@@ -283,8 +299,21 @@ def run(chk: Check, ctx: Any) -> None:
     kept = [c for c in walk_no_nested(ffn) if isinstance(c, ast.Call) and isinstance(c.func, ast.Attribute) and c.func.attr == "append"
             and isinstance(c.func.value, ast.Name)]
     # the append of a non-label op: the one guarded by the removal flag
-    flag_ifs = [n for n in walk_no_nested(ffn) if isinstance(n, ast.If) and isinstance(n.test, ast.UnaryOp) and isinstance(n.test.op, ast.Not)
-                and isinstance(n.test.operand, ast.Name)]
+    # the branch taken when the op is kept: `if not <flag>: ...` or the else-branch of `if <flag>: ... else: ...`
+    class _Kept:
+        def __init__(self, body: list[ast.stmt]) -> None:
+            self.body = body
+    flag_ifs: list[Any] = [n for n in walk_no_nested(ffn) if isinstance(n, ast.If) and isinstance(n.test, ast.UnaryOp) and isinstance(n.test.op, ast.Not)
+                           and isinstance(n.test.operand, ast.Name)]
+    flag_ifs += [_Kept(n.orelse) for n in walk_no_nested(ffn) if isinstance(n, ast.If) and isinstance(n.test, ast.Name) and n.orelse
+                 and any(isinstance(c, ast.Call) and isinstance(c.func, ast.Attribute) and c.func.attr == "append" for st in n.orelse for c in ast.walk(st))]
+    # ops that were handed to the output are never taken out again (labels may already carry their offset)
+    out_lists = {norm(c.func.value) for c in kept}
+    taken_out = [n for n in walk_no_nested(ffn) if (isinstance(n, ast.Delete) and any(isinstance(t, ast.Subscript) and norm(t.value) in out_lists for t in n.targets))
+                 or (isinstance(n, ast.Call) and isinstance(n.func, ast.Attribute) and n.func.attr in ("pop", "remove", "clear") and norm(n.func.value) in out_lists)]
+    chk.decide("C03-R4", "finalizer:kept-ops-stay", not taken_out, fin,
+               f"`{norm(taken_out[0])[:60] if taken_out else ''}` removes an op that was already appended to the output: labels that were waiting for that op already "
+               "carry its offset, so jumps to them name an offset that no longer exists in the result", "appended ops are never removed", node=taken_out[0] if taken_out else None)
     if len(stores) != 1 or len(flag_ifs) != 1:
         chk.unknown("C03-R4", "finalizer:shape", fin, "label_offsets store / `if not <removed flag>` not found exactly once")
     else:
